@@ -738,7 +738,7 @@ Qed.
 
 Lemma save_ids s c : save s = Ok c -> k_ids c = ids s.
 Proof.
-  unfold save. intros H. dbind H as pn. dbind H as pt. injection H as <-. reflexivity.
+  unfold save. intros H. dbind H as h1. injection H as <-. reflexivity.
 Qed.
 
 Lemma load_last_id e c T : last_id (load e c) T = match lookup T (k_ids c) with Some z => z | None => 0 end.
